@@ -73,7 +73,7 @@ THEOREMS = [
     "JanetModel.Props.C11.state_query_scratch_in_bounds",
 ]
 ENV = dict(os.environ, ASAN_OPTIONS="detect_leaks=0:abort_on_error=0", UBSAN_OPTIONS="print_stacktrace=1")
-BAD_MARKS = ("PANIC", "SECOND-ERROR", "BADCOUNT", "SHORT", "NOTNIL", "BADWRAP", "NOT-A-STRING", "BADOP", "bad-op")
+BAD_MARKS = ("LATCH-MOVED", "PANIC", "SECOND-ERROR", "BADCOUNT", "SHORT", "NOTNIL", "BADWRAP", "NOT-A-STRING", "BADOP", "bad-op")
 CORPUS = os.path.join(VERIF, "corpus/C11/scenarios.txt")
 JOBS = 12
 
